@@ -1,6 +1,14 @@
 /-
-S — NETWORK_ACK (C13), written from the property text and docs/network_docs (“message types
-65..191 are acknowledged end to end by the node that delivers them”), not from the implementation.
+S — NETWORK_ACK (C13).  Written from the property text and docs/network_docs (“message types
+65..191 are acknowledged end to end by the node that delivers them”), not from the implementation:
+`AckAction`, `AckType`, `originRule`, `forwarderRule` (they use only the address tree of `Spec/Tree.lean`).
+
+NOT independent of the implementation: `ackCont` imports `NrfModel.Net.Node` and calls the judged model's
+own functions (`ackWait`, `nodeWriteToPipe`, `logi2phys`, `Rf24.setListen`, `Rf24.setAutoAckAttr`); it is a
+**re-bracketing of the model's own control flow** — the three tails of `nodeWrite` — not an independent
+specification.  `C13_when_step` ("`nodeWrite` continues with `ackCont (ackAction …)`") is therefore
+"model = model re-bracketed"; the independent content of C13's decision part is `C13_when_meaning`
+conjuncts 1-2 (`ackAction` = `originRule` / `forwarderRule` on the tree).
 
 Roles on the tree (digit lists of `Spec/Tree.lean`): the *origin* `s` of a frame for `d`, and the
 *forwarders* — the intermediate nodes of the tree path.  What each of them has to do about the
@@ -35,7 +43,8 @@ def originRule (s d : List Nat) (t : Nat) : AckAction :=
 def forwarderRule (x s d : List Nat) (t : Nat) : AckAction :=
   if AckType t ∧ nextHopSpec x d = d ∧ s ≠ x then .emit else .none
 
-/-- the three actions, operationally (`f` = fuel of the nested calls; `result` = the verdict of the
+/-- (re-bracketing of the three tails of the model's `nodeWrite`, calls model functions — see the file
+    header) the three actions, operationally (`f` = fuel of the nested calls; `result` = the verdict of the
     transmission to the next hop; `isMulticast` = it was sent without auto-ack) -/
 def ackCont (f : Nat) (act : AckAction) (result isMulticast : Bool) : NetM Bool :=
   match act with
